@@ -380,7 +380,7 @@ class C10(flow.Spec):
         return make_case(1, stop, blk, strtab, rng, base=base, sbase=sbase), '+'.join(notes)
 
     def gen_cases(self, rng, tier):
-        n = {'quick': 500, 'thorough': 12000, 'search': 1500}[tier]
+        n = {'quick': 1200, 'thorough': 30000, 'search': 2500}[tier]
         out = []
         for i in range(n):
             out.append((self.gen_wf_case(rng), 'wellformed'))
